@@ -114,6 +114,11 @@ func (upc *BroadcastRawUDPConn) ReadFrom(b []byte) (int, net.Addr, error) {
 		if !buf.Has(udpHdrLen) {
 			continue
 		}
+		// The IP total length must leave room for a UDP header, or the
+		// payload length below would be negative.
+		if int(ipHdr.payloadLength()) < udpHdrLen {
+			continue
+		}
 
 		udpHdr := udp(buf.Consume(udpHdrLen))
 
